@@ -141,6 +141,7 @@ def check_case(case, ctx):
         ctx.fail("none-with-heuristic", "plain solve returns %r but the solve with %s returns None" % (tau, opts["drh"]))
         return
     pep = env.pep
+    oracles.check_heuristic_objective(ctx, pep.wrapper)
     tol_dr = opts["tol_dr"]
     scale = 1 + abs(tau)
     lc, ll = list(pep._list_of_constraints_sent_to_wrapper), list(pep._list_of_psd_sent_to_wrapper)
